@@ -169,8 +169,15 @@ class C05(Prop):
                  "cases": cases}]
 
     # --- implementation --------------------------------------------------------------------------------------
+    @staticmethod
+    def _pub(s):
+        """debt, total consumed and state through the public surface only (get_debt / get_statistics / get_state take no
+        lock); how the store keeps its books privately is not the check's business"""
+        return s.get_debt(), s.get_statistics()["total_consumed"], s.get_state().value
+
     def _snap(self, s):
-        return f"{s.atp} {s.gtp} {s.nadh} {s._debt} {s._total_consumed} {s._state.value}"
+        debt, consumed, state = self._pub(s)
+        return f"{s.atp} {s.gtp} {s.nadh} {debt} {consumed} {state}"
 
     def _mk_stores(self, specs, setatp, observers=None):
         M = self.M
@@ -476,7 +483,7 @@ class C05(Prop):
             out.append(Violation("no_deadlock", "every set of concurrent calls finishes", "scheduler found all threads blocked / a call did not return"))
             return out
         for j, st in enumerate(extra["stores"]):
-            if min(st.atp, st.gtp, st.nadh, st._debt) < 0:
+            if min(st.atp, st.gtp, st.nadh, self._pub(st)[0]) < 0:
                 out.append(Violation("balances_nonnegative", ">= 0", extra["final"][j]))
             b, g, n, md = extra["specs"][j]
             start_atp = dict(extra["setatp"]).get(j, b)
@@ -486,8 +493,8 @@ class C05(Prop):
                     t = c.split()
                     if (t[0] == "regen" and int(t[1]) == j) or (t[0] == "xfer" and int(t[2]) == j):
                         inflow += int(t[2] if t[0] == "regen" else t[3])
-            if st._total_consumed > start_atp + g + n + md + inflow:
-                out.append(Violation("no_overspend", f"<= {start_atp + g + n + md + inflow}", f"total_consumed={st._total_consumed}"))
+            if self._pub(st)[1] > start_atp + g + n + md + inflow:
+                out.append(Violation("no_overspend", f"<= {start_atp + g + n + md + inflow}", f"total_consumed={self._pub(st)[1]}"))
         got = (tuple(tuple(r) for r in extra["rets"]), tuple(extra["final"]))
         if got not in self._sequential_outcomes(extra["specs"], extra["setatp"], extra["threads"]):
             out.append(Violation("equivalent_to_some_sequential_order_of_the_calls",
